@@ -31,6 +31,38 @@ def _is_remote_error_expr(repo, fi, e: ast.AST | None) -> bool | None:
     return False
 
 
+def check_callback_failure_closes(ctx: Ctx, oid: str) -> None:
+    """ChannelFactory._local_receive: whenever the user callback raises, the failing side's own end is closed with the error --
+    unconditionally (also when the channel object is already gone: the callback registration must still be dropped) and the peer
+    is told (shared: C07.j, C18.i)"""
+    repo = ctx.repo
+    from ..terms import evaluator as _ev
+    flr = repo.func(f"{GB}.ChannelFactory._local_receive")
+    idp = [p_ for p_ in flr.params() if p_ != "self"][0]
+    is_cb = lambda c: isinstance(c.func, ast.Name) and c.func.id == "callback"  # noqa: E731
+    with ctx.obligation(oid, "callback-failure-closes") as ob:
+        orc = Oracle(repo, flr, precise=True, call_raises=lambda c, f: [("Exception", True)] if is_cb(c) else None)
+        ev = _ev(repo, flr, orc)
+        nfail = 0
+        ok = True
+        for (pth, st) in ev.run(limit=20000):
+            rz = [e for e in st.events if e.kind == "call" and e.raised and isinstance(e.node, ast.Call) and is_cb(e.node)]
+            if not rz:
+                continue
+            nfail += 1
+            after = st.events[st.events.index(rz[-1]):]
+            closes = [e for e in after if e.kind == "call" and e.attr == "_local_close" and e.args[:1] == (("sym", idp),)]
+            sends = [e for e in after if e.kind == "call" and e.attr == "_send"]
+            if len(closes) != 1 or len(sends) != 1 or pth[-1][0] != ev.cfg.exit.id:
+                ok = False
+                ob.violation(flr, rz[-1].node, "a failing callback does not always close its own side (drop the callback registration) and tell the peer: a callback of an already "
+                                               "dropped channel stays registered and keeps receiving items after it failed", path=ev.cfg.describe_path(pth),
+                             construct=f"closes={len(closes)} sends={len(sends)}")
+                break
+        ob.site(flr, flr.node, "callback failure -> exactly one CHANNEL_CLOSE_ERROR and one _local_close(id, error) on every path", failing_paths=nfail, ok=ok)
+        ob.require(nfail >= 1, "_local_receive: callback invocation not found")
+
+
 def check(ctx: Ctx) -> None:
     repo = ctx.repo
     ctx.decides = ("only RemoteError objects can reach Channel._remoteerrors / .warn(); a failing callback closes both sides with the error; "
@@ -280,3 +312,4 @@ def check(ctx: Ctx) -> None:
     # after the RemoteError was delivered the channel is at EOF for every later / other receiver: the marker goes back
     from .C03 import check_endmarker_requeue
     check_endmarker_requeue(ctx, "C07.i")
+    check_callback_failure_closes(ctx, "C07.j")
